@@ -12,7 +12,6 @@ NA = {
     "C02": "Round-trips of Exp/Log, Spurrier's branch choice and behaviour within rounding distance of a half-turn are facts about real and floating-point values of transcendental expressions; no code-shape fact is a necessary condition of the round-trip (DESIGN §5).",
     "C03": "Closed-form trigonometric coefficient formulas with no callee structure to cover and no scaling group under which they are homogeneous; agreement to a small tolerance down to |psi|=1e-9 is a cancellation question (DESIGN §5).",
     "C13": "Partition of unity, Kronecker property, quadrature exactness and elDOF arithmetic are value identities of numpy/scipy objects created at run time; nothing in the source shape decides them (DESIGN §5).",
-    "C19": "Energy behaviour, observed order and reversibility are trajectory facts; the only structural ingredient (stage symmetry of force families) is checked under C17/C16 and would be a proxy here (DESIGN §5).",
 }
 PENDING = "checker not built yet in this round (see DESIGN §2 build order); no claim is made"
 
